@@ -627,16 +627,18 @@ theorem provnRecord_elem (r : Record) (hk : r.kind = .entity ∨ r.kind = .agent
   have helem : r.kind.isElement = true := by rcases hk with h | h <;> rw [h] <;> rfl
   have hnf : ∀ a : QName, isFormalOf r.kind a = false := by
     intro a; simp [isFormalOf, hform, inProvSet]
-  have hextras : (r.attrs.filter (fun p => !isFormalOf r.kind p.1)).flatMap (fun p =>
-      p.2.map (fun v => p.1.print ++ "=" ++ provnValue v)) = r.flat.map (fun p => p.1.print ++ "=" ++ provnValue p.2) := by
+  have hextras : provnExtras r = r.flat.map (fun p => p.1.print ++ "=" ++ provnValue p.2) := by
+    unfold provnExtras
     have : r.attrs.filter (fun p => !isFormalOf r.kind p.1) = r.attrs := by
       apply List.filter_eq_self.mpr
       intro p _; simp [hnf]
     rw [this]
     simp [Record.flat, List.map_flatMap, List.map_map]
     rfl
+  have hidi : provnIdItems r = ([q.print], "") := by simp [provnIdItems, hid, helem]
+  have hfo : provnFormals r = [] := by simp [provnFormals, hform]
   unfold provnRecord
-  simp only [hid, helem, if_true, hform, List.map_nil, List.append_nil, hextras]
+  simp only [hidi, hfo, hextras, List.append_nil]
   unfold elemText
   by_cases he : r.flat.isEmpty = true
   · have : r.flat = [] := by simpa using he
@@ -710,5 +712,409 @@ theorem rEnt_ok : ∀ p ∈ rEnt.flat, IsWord p.1.print.toList ∧ Printable p.2
 example (n : Nat) (rest : List Char) (more : List Tok) :=
   c06_element C10.scEx scEx_stdN [] rEnt true rfl (C09.exQ "e") rfl (isWord_lit _ (by decide) (by decide) (by decide))
     (by decide +kernel) rEnt_ok n rest more
+
+/-! ### positional arguments: words separated by `, ` -/
+
+def wordsToks : List String → List Tok
+  | [] => []
+  | [w] => [.word w]
+  | w :: x :: l => Tok.word w :: Tok.comma :: wordsToks (x :: l)
+
+def wordsSteps : List String → Nat
+  | [] => 0
+  | [_] => 1
+  | _ :: x :: l => 3 + wordsSteps (x :: l)
+
+/-- a non-empty list of words joined by `, `, followed by something that ends a word -/
+theorem lex_words : ∀ (ws : List String), ws ≠ [] → (∀ w ∈ ws, IsWord w.toList) → ∀ (n : Nat) (rest : List Char), EndsWord rest →
+    lex (n + wordsSteps ws) ((joinWith ", " ws).toList ++ rest) = (lex n rest).map (wordsToks ws ++ ·)
+  | [], h, _, _, _, _ => absurd rfl h
+  | [w], _, hw, n, rest, hr => by
+    simp only [joinWith, wordsSteps, wordsToks]
+    rw [lex_word n w.toList rest (hw w List.mem_cons_self) hr]
+    cases lex n rest <;> simp
+  | w :: x :: l, _, hw, n, rest, hr => by
+    have ih := lex_words (x :: l) (by simp) (fun y hy => hw y (List.mem_cons_of_mem _ hy)) n rest hr
+    have hs : (", " : String).toList = [',', ' '] := rfl
+    simp only [joinWith, wordsSteps, wordsToks, String.toList_append, hs, List.append_assoc, List.cons_append, List.nil_append]
+    rw [show n + (3 + wordsSteps (x :: l)) = ((n + wordsSteps (x :: l)) + 2) + 1 by omega,
+      lex_word _ w.toList _ (hw w List.mem_cons_self) (by intro c hc; simp at hc; subst hc; decide),
+      show (n + wordsSteps (x :: l)) + 2 = ((n + wordsSteps (x :: l)) + 1) + 1 from rfl, lex_comma, lex_space, ih]
+    cases lex n rest <;> simp
+
+theorem joinWith_snoc : ∀ (ws : List String) (b : String), ws ≠ [] → joinWith ", " (ws ++ [b]) = joinWith ", " ws ++ ", " ++ b
+  | [], _, h => absurd rfl h
+  | [w], b, _ => by simp [joinWith]
+  | w :: x :: l, b, _ => by
+    have ih := joinWith_snoc (x :: l) b (by simp)
+    simp only [List.cons_append, joinWith] at ih ⊢
+    rw [ih]
+    simp [String.append_assoc]
+
+/-- a positional slot: the production's (attribute, optional?) and the value the record holds there -/
+abbrev Slot := (String × Bool) × Option Value
+
+def slotWord (s : Slot) : String := match s.2 with | some v => provnFormal v | none => "-"
+
+/-- the slot can be printed and read: a missing value only where the marker is allowed, times in time positions, names
+    that resolve elsewhere -/
+def SlotOk (sc : Scope) (s : Slot) : Prop :=
+  match s.2 with
+  | none => s.1.2 = true
+  | some (.dt t) => timeArgs.contains s.1.1 = true ∧ t.iso ≠ "-"
+  | some (.qn q) => timeArgs.contains s.1.1 = false ∧ sc.resolve q.print = some q.uri ∧ q.print ≠ "-"
+  | _ => False
+
+def slotAbs (s : Slot) : List (String × AVal) :=
+  match s.2 with
+  | some v => [(provNs ++ s.1.1, C10.absValue v)]
+  | none => []
+
+def commaToks (ws : List String) : List Tok := ws.flatMap (fun w => [Tok.comma, Tok.word w])
+
+theorem wordsToks_cons (w : String) (l : List String) : wordsToks (w :: l) = Tok.word w :: commaToks l := by
+  induction l generalizing w with
+  | nil => rfl
+  | cons x l ih => simp [wordsToks, commaToks, ih x, List.flatMap_cons]
+
+/-- one slot, once its word is at the front (`first`: no comma before it) -/
+theorem argWord_slot (sc : Scope) (s : Slot) (hs : SlotOk sc s) (k : Option (List (String × AVal) × List Tok)) :
+    argWord sc s.1.1 s.1.2 (slotWord s) k = k.map (fun r => (slotAbs s ++ r.1, r.2)) := by
+  obtain ⟨⟨a, opt⟩, val⟩ := s
+  cases val with
+  | none =>
+    have hopt : opt = true := hs
+    simp [argWord, slotWord, hopt, slotAbs]
+  | some v =>
+    cases v with
+    | dt t =>
+      obtain ⟨h1, h2⟩ := hs
+      have hne : (t.iso == "-") = false := by simpa using h2
+      have h1' : a ∈ timeArgs := by simpa using h1
+      simp [argWord, slotWord, provnFormal, hne, h1', slotAbs, C10.absValue]
+    | qn q =>
+      obtain ⟨h1, h2, h3⟩ := hs
+      have hne : (q.print == "-") = false := by simpa using h3
+      have h1' : a ∉ timeArgs := by simpa using h1
+      simp [argWord, slotWord, provnFormal, hne, h1', h2, slotAbs, C10.absValue]
+    | _ => exact absurd hs (by simp [SlotOk])
+
+theorem pArgs_step (sc : Scope) (s : Slot) (hs : SlotOk sc s) (more : List (String × Bool)) (first : Bool) (ts' : List Tok) :
+    pArgs sc (s.1 :: more) first (if first then Tok.word (slotWord s) :: ts' else Tok.comma :: Tok.word (slotWord s) :: ts') =
+      (pArgs sc more false ts').map (fun r => (slotAbs s ++ r.1, r.2)) := by
+  have hsk : skipComma first (if first then Tok.word (slotWord s) :: ts' else Tok.comma :: Tok.word (slotWord s) :: ts') =
+      some (Tok.word (slotWord s) :: ts') := by cases first <;> rfl
+  show (match skipComma first _ with
+    | some (.word w :: rest) => argWord sc s.1.1 s.1.2 w (pArgs sc more false rest)
+    | _ => none) = _
+  rw [hsk]
+  exact argWord_slot sc s hs _
+
+/-- **positional arguments**: after the first, each slot's word preceded by a comma -/
+theorem pArgs_rest (sc : Scope) : ∀ (slots : List Slot), (∀ s ∈ slots, SlotOk sc s) → ∀ more,
+    pArgs sc (slots.map (·.1)) false (commaToks (slots.map slotWord) ++ more) = some (slots.flatMap slotAbs, more)
+  | [], _, more => by simp [pArgs, commaToks]
+  | s :: rest, h, more => by
+    have ih := pArgs_rest sc rest (fun x hx => h x (List.mem_cons_of_mem _ hx)) more
+    have hstep := pArgs_step sc s (h s List.mem_cons_self) (rest.map (·.1)) false (commaToks (rest.map slotWord) ++ more)
+    simp only [Bool.false_eq_true, if_false] at hstep
+    have htoks : commaToks ((s :: rest).map slotWord) ++ more =
+        Tok.comma :: Tok.word (slotWord s) :: (commaToks (rest.map slotWord) ++ more) := by
+      simp [commaToks, List.flatMap_cons]
+    rw [List.map_cons, htoks, hstep, ih]
+    simp
+
+theorem pArgs_all (sc : Scope) (s : Slot) (rest : List Slot) (h : ∀ x ∈ s :: rest, SlotOk sc x) (more : List Tok) :
+    pArgs sc ((s :: rest).map (·.1)) true (wordsToks ((s :: rest).map slotWord) ++ more) =
+      some ((s :: rest).flatMap slotAbs, more) := by
+  have hstep := pArgs_step sc s (h s List.mem_cons_self) (rest.map (·.1)) true (commaToks (rest.map slotWord) ++ more)
+  simp only [if_true] at hstep
+  simp only [List.map_cons, wordsToks_cons, List.cons_append]
+  rw [hstep, pArgs_rest sc rest (fun x hx => h x (List.mem_cons_of_mem _ hx)) more]
+  simp
+
+/-! ### a whole relation expression: `name(id; a1, a2, …, [k=v, …])` -/
+
+theorem lex_semi (n : Nat) (cs : List Char) : lex (n + 1) (';' :: cs) = (lex n cs).map (Tok.semi :: ·) := by
+  simp [lex_succ, lexBody]
+
+def idText : Option QName → String
+  | some q => q.print ++ "; "
+  | none => ""
+
+def idToks : Option QName → List Tok
+  | some q => [.word q.print, .semi]
+  | none => []
+
+def idSteps : Option QName → Nat
+  | some _ => 3
+  | none => 0
+
+def tailText (pairs : List (QName × Value)) : String :=
+  if pairs.isEmpty then ")" else ", [" ++ itemsText pairs ++ ")"
+
+def tailToks (pairs : List (QName × Value)) : List Tok :=
+  if pairs.isEmpty then [.rp] else Tok.comma :: Tok.lb :: (itemsToks pairs ++ [.rp])
+
+def tailSteps (pairs : List (QName × Value)) : Nat :=
+  if pairs.isEmpty then 1 else 4 + itemsSteps pairs
+
+/-- `)` or `, [items])` -/
+theorem lex_tail (pairs : List (QName × Value)) (hp : ∀ p ∈ pairs, IsWord p.1.print.toList ∧ Printable p.2) (n : Nat)
+    (rest : List Char) :
+    lex (n + tailSteps pairs) ((tailText pairs).toList ++ rest) = (lex n rest).map (tailToks pairs ++ ·) := by
+  have hr : (")" : String).toList = [')'] := rfl
+  have hcb : (", [" : String).toList = [',', ' ', '['] := rfl
+  by_cases he : pairs.isEmpty = true
+  · simp only [tailText, tailToks, tailSteps, he, if_true, hr, List.cons_append, List.nil_append]
+    rw [lex_rp]
+  · have he0 : pairs.isEmpty = false := by simpa using he
+    have hit := c06_items_lex pairs hp (n + 1) (')' :: rest)
+    simp only [tailText, tailToks, tailSteps, he0, Bool.false_eq_true, if_false, String.toList_append, hr, hcb,
+      List.append_assoc, List.cons_append, List.nil_append]
+    rw [show n + (4 + itemsSteps pairs) = ((n + 1 + itemsSteps pairs) + 2) + 1 by omega, lex_comma,
+      show (n + 1 + itemsSteps pairs) + 2 = ((n + 1 + itemsSteps pairs) + 1) + 1 from rfl, lex_space, lex_lb, hit, lex_rp]
+    cases lex n rest <;> simp
+
+theorem tailText_head (pairs : List (QName × Value)) (rest : List Char) : EndsWord ((tailText pairs).toList ++ rest) := by
+  unfold tailText
+  split
+  · intro c hc
+    have : (")" : String).toList = [')'] := rfl
+    simp [this] at hc; subst hc; decide
+  · intro c hc
+    have : (", [" : String).toList = [',', ' ', '['] := rfl
+    simp [String.toList_append, this] at hc; subst hc; decide
+
+def relText (kw : String) (id : Option QName) (words : List String) (pairs : List (QName × Value)) : String :=
+  kw ++ "(" ++ idText id ++ joinWith ", " words ++ tailText pairs
+
+def relToks (kw : String) (id : Option QName) (words : List String) (pairs : List (QName × Value)) : List Tok :=
+  Tok.word kw :: Tok.lp :: (idToks id ++ (wordsToks words ++ tailToks pairs))
+
+def relSteps (id : Option QName) (words : List String) (pairs : List (QName × Value)) : Nat :=
+  2 + idSteps id + wordsSteps words + tailSteps pairs
+
+/-- **C06, lexing a relation expression** -/
+theorem c06_rel_lex (kw : String) (hkw : IsWord kw.toList) (id : Option QName) (hid : ∀ q ∈ id, IsWord q.print.toList)
+    (words : List String) (hne : words ≠ []) (hw : ∀ w ∈ words, IsWord w.toList)
+    (pairs : List (QName × Value)) (hp : ∀ p ∈ pairs, IsWord p.1.print.toList ∧ Printable p.2) (n : Nat) (rest : List Char) :
+    lex (n + relSteps id words pairs) ((relText kw id words pairs).toList ++ rest) =
+      (lex n rest).map (relToks kw id words pairs ++ ·) := by
+  have hl : ("(" : String).toList = ['('] := rfl
+  have hsc : ("; " : String).toList = [';', ' '] := rfl
+  have htl := lex_tail pairs hp n rest
+  have hws := lex_words words hne hw (n + tailSteps pairs) ((tailText pairs).toList ++ rest) (tailText_head pairs rest)
+  simp only [relText, relToks, relSteps, String.toList_append, hl, List.append_assoc, List.cons_append, List.nil_append]
+  cases id with
+  | none =>
+    have he : ("" : String).toList = [] := rfl
+    simp only [idText, idToks, idSteps, he, List.nil_append]
+    rw [show n + (2 + 0 + wordsSteps words + tailSteps pairs) = ((n + tailSteps pairs + wordsSteps words) + 1) + 1 by omega,
+      lex_word _ kw.toList _ hkw (by intro c hc; simp at hc; subst hc; decide), lex_lp, hws, htl]
+    cases lex n rest <;> simp
+  | some q =>
+    have hq := hid q rfl
+    simp only [idText, idToks, idSteps, String.toList_append, hsc, List.append_assoc, List.cons_append, List.nil_append]
+    rw [show n + (2 + 3 + wordsSteps words + tailSteps pairs) = ((n + tailSteps pairs + wordsSteps words) + 4) + 1 by omega,
+      lex_word _ kw.toList _ hkw (by intro c hc; simp at hc; subst hc; decide),
+      show (n + tailSteps pairs + wordsSteps words) + 4 = ((n + tailSteps pairs + wordsSteps words) + 3) + 1 from rfl, lex_lp,
+      show (n + tailSteps pairs + wordsSteps words) + 3 = ((n + tailSteps pairs + wordsSteps words) + 2) + 1 from rfl,
+      lex_word _ q.print.toList _ hq (by intro c hc; simp at hc; subst hc; decide),
+      show (n + tailSteps pairs + wordsSteps words) + 2 = ((n + tailSteps pairs + wordsSteps words) + 1) + 1 from rfl,
+      lex_semi, lex_space, hws, htl]
+    cases lex n rest <;> simp
+
+/-- `)` or `, [items])` as the production's tail -/
+theorem pTail_tail (sc : Scope) (std : StdScopeN sc) (hints : List (String × FloatAtom)) (pairs : List (QName × Value))
+    (fuel : Nat) (hf : pairs.length < fuel) (allow : Bool) (hallow : pairs = [] ∨ allow = true)
+    (hp : ∀ p ∈ pairs, sc.resolve p.1.print = some p.1.uri ∧ ParseReadable sc hints p.2) (more : List Tok) :
+    pTail sc hints fuel allow (tailToks pairs ++ more) = some (pairs.map (fun p => (p.1.uri, C10.absValue p.2)), more) := by
+  by_cases he : pairs.isEmpty = true
+  · have hnil : pairs = [] := by simpa using he
+    subst hnil
+    simp [tailToks, pTail]
+  · have he0 : pairs.isEmpty = false := by simpa using he
+    have ha : allow = true := by
+      rcases hallow with h | h
+      · rw [h] at he0; simp at he0
+      · exact h
+    have hit := c06_items_parse sc std hints pairs fuel hf hp (Tok.rp :: more)
+    simp [tailToks, he0, pTail, ha, hit]
+
+/-- **C06, parsing a relation expression**: the tokens are parsed, by the production the grammar has for that name, into the
+    relation with its identifier URI (if any), its positional arguments under their PROV attribute URIs, and its attribute
+    pairs — all of them, in order, nothing else -/
+theorem c06_rel_parse (sc : Scope) (std : StdScopeN sc) (hints : List (String × FloatAtom)) (name : String) (pr : Prod)
+    (hprod : prods.find? (fun p => p.1 == name) = some (name, pr))
+    (hnot : (name == "entity" || name == "agent") = false ∧ (name == "activity") = false)
+    (id : Option QName) (hid : ∀ q ∈ id, sc.resolve q.print = some q.uri ∧ q.print ≠ "-" ∧ pr.hasIdAttrs = true)
+    (s : Slot) (slots : List Slot) (hargs : (s :: slots).map (·.1) = pr.args) (hs : ∀ x ∈ s :: slots, SlotOk sc x)
+    (pairs : List (QName × Value)) (hpa : pairs = [] ∨ pr.hasIdAttrs = true)
+    (fuel : Nat) (hf : pairs.length < fuel)
+    (hp : ∀ p ∈ pairs, sc.resolve p.1.print = some p.1.uri ∧ ParseReadable sc hints p.2) (more : List Tok) :
+    pExpr sc hints fuel (relToks name id ((s :: slots).map slotWord) pairs ++ more) =
+      some (⟨pr.kind, id.map QName.uri, (s :: slots).flatMap slotAbs ++ pairs.map (fun p => (p.1.uri, C10.absValue p.2))⟩, more) := by
+  have hargsP := pArgs_all sc s slots hs (tailToks pairs ++ more)
+  rw [hargs] at hargsP
+  have htail := pTail_tail sc std hints pairs fuel hf pr.hasIdAttrs hpa hp more
+  cases id with
+  | none =>
+    -- no identifier: the first token after `(` is the first argument's word, followed by a comma or the tail (never `;`)
+    have hid0 : pOptId sc pr.hasIdAttrs (wordsToks ((s :: slots).map slotWord) ++ (tailToks pairs ++ more)) =
+        (some none, wordsToks ((s :: slots).map slotWord) ++ (tailToks pairs ++ more)) := by
+      rw [List.map_cons, wordsToks_cons]
+      cases slots with
+      | nil =>
+        simp only [List.map_nil, commaToks, List.flatMap_nil, List.nil_append, List.cons_append, tailToks]
+        split <;> rfl
+      | cons x xs => simp [commaToks, List.flatMap_cons, pOptId]
+    simp only [relToks, idToks, List.nil_append, List.cons_append, List.append_assoc, pExpr, hnot.1, hnot.2, Bool.false_eq_true,
+      if_false, hprod, hid0, hargsP, htail, Option.map_none, Option.map_some]
+  | some q =>
+    obtain ⟨hq, hqm, hhas⟩ := hid q rfl
+    have hqm' : (q.print == "-") = false := by simpa using hqm
+    simp only [relToks, idToks, List.cons_append, List.nil_append, List.append_assoc, pExpr, hnot.1, hnot.2, Bool.false_eq_true,
+      if_false, hprod, pOptId, hhas, Bool.not_true, hqm', hq, Option.map_some, hargsP]
+    rw [hhas] at htail
+    simp [htail]
+
+/-- the (attribute, value) pairs a relation prints in its bracket: everything that is not a positional argument -/
+def recPairs (r : Record) : List (QName × Value) :=
+  (r.attrs.filter (fun p => !isFormalOf r.kind p.1)).flatMap (fun p => p.2.map (fun v => (p.1, v)))
+
+/-- the printer's text of a relation record is that relation text -/
+theorem provnRecord_rel (r : Record) (hk : r.kind.isElement = false) (hf : r.kind.formals ≠ []) :
+    provnRecord r = relText r.kind.provN r.id (provnFormals r) (recPairs r) := by
+  have hextras : provnExtras r = (recPairs r).map (fun p => p.1.print ++ "=" ++ provnValue p.2) := by
+    simp [provnExtras, recPairs, List.map_flatMap, List.map_map]
+    rfl
+  have hwne : provnFormals r ≠ [] := by simpa [provnFormals] using hf
+  have hidi : provnIdItems r = ([], idText r.id) := by
+    unfold provnIdItems
+    cases r.id <;> simp [hk, idText]
+  unfold provnRecord
+  simp only [hidi, hextras, List.nil_append]
+  unfold relText tailText
+  by_cases he : (recPairs r).isEmpty = true
+  · have hnil : recPairs r = [] := by simpa using he
+    simp [hnil, String.append_assoc]
+  · have he0 : (recPairs r).isEmpty = false := by simpa using he
+    have hne : recPairs r ≠ [] := by simpa using he
+    have hme : ((recPairs r).map (fun p => p.1.print ++ "=" ++ provnValue p.2)).isEmpty = false := by simpa using hne
+    simp only [hme, he0, Bool.false_eq_true, if_false]
+    rw [joinWith_snoc (provnFormals r) _ hwne, ← itemsText_eq (recPairs r) hne]
+    simp only [String.append_assoc]
+    have hcat : ∀ X : String, ", " ++ ("[" ++ X) = ", [" ++ X := fun X => by
+      rw [← String.append_assoc]
+      have : (", " : String) ++ "[" = ", [" := by decide +kernel
+      rw [this]
+    simp [hcat]
+
+/-- the slots of a relation record under its production -/
+def recSlots (pr : Prod) (r : Record) : List Slot := pr.args.map (fun a => (a, (r.get (formalQ a.1)).head?))
+
+theorem recSlots_words (pr : Prod) (r : Record) (hf : pr.args.map (·.1) = r.kind.formals) :
+    (recSlots pr r).map slotWord = provnFormals r := by
+  unfold provnFormals
+  rw [← hf]
+  simp only [recSlots, List.map_map]
+  apply List.map_congr_left
+  intro a _
+  cases hv : (r.get (formalQ a.1)).head? <;> simp [slotWord, hv]
+
+theorem recSlots_args (pr : Prod) (r : Record) : (recSlots pr r).map (·.1) = pr.args := by
+  simp only [recSlots, List.map_map]
+  conv => rhs; rw [← List.map_id pr.args]
+  apply List.map_congr_left
+  intro a _
+  rfl
+
+/-- **C06 for a relation record, from characters to content**: the text `get_provn()` prints for a relation — optional
+    identifier, positional arguments with `-` markers, times, any number of attributes — is tokenised by the grammar's lexer
+    and parsed by the production the grammar has for that relation into that relation: identifier URI, each present
+    positional argument under its PROV attribute URI, each (attribute URI, value) pair, in order, nothing else.
+    Hypotheses: the production is the one for this record kind (table theorem `t6_provn_productions`); the record fits it
+    (`SlotOk`: a missing value only where the marker is allowed, times in time positions, names that resolve); identifier and
+    attributes only where the production takes them (the known finding C06-2 is exactly the failure of this hypothesis);
+    names are words and resolve as meant; unescaped texts have nothing to escape; float texts are in the float table. -/
+theorem c06_relation (sc : Scope) (std : StdScopeN sc) (hints : List (String × FloatAtom)) (r : Record) (pr : Prod)
+    (hk : r.kind.isElement = false)
+    (hprod : prods.find? (fun p => p.1 == r.kind.provN) = some (r.kind.provN, pr))
+    (hnot : (r.kind.provN == "entity" || r.kind.provN == "agent") = false ∧ (r.kind.provN == "activity") = false)
+    (hkw : IsWord r.kind.provN.toList)
+    (hf : pr.args.map (·.1) = r.kind.formals) (hne : pr.args ≠ [])
+    (hid : ∀ q ∈ r.id, IsWord q.print.toList ∧ sc.resolve q.print = some q.uri ∧ q.print ≠ "-" ∧ pr.hasIdAttrs = true)
+    (hslots : ∀ x ∈ recSlots pr r, SlotOk sc x ∧ IsWord (slotWord x).toList)
+    (hpa : recPairs r = [] ∨ pr.hasIdAttrs = true)
+    (hp : ∀ p ∈ recPairs r, IsWord p.1.print.toList ∧ Printable p.2 ∧ sc.resolve p.1.print = some p.1.uri ∧ ParseReadable sc hints p.2)
+    (n : Nat) (rest : List Char) (more : List Tok) :
+    lex (n + relSteps r.id (provnFormals r) (recPairs r)) ((provnRecord r).toList ++ rest) =
+      (lex n rest).map (relToks r.kind.provN r.id (provnFormals r) (recPairs r) ++ ·) ∧
+    pExpr sc hints ((recPairs r).length + 1) (relToks r.kind.provN r.id (provnFormals r) (recPairs r) ++ more) =
+      some (⟨pr.kind, r.id.map QName.uri,
+        (recSlots pr r).flatMap slotAbs ++ (recPairs r).map (fun p => (p.1.uri, C10.absValue p.2))⟩, more) := by
+  have hformals : r.kind.formals ≠ [] := by rw [← hf]; simpa using hne
+  have hwords := recSlots_words pr r hf
+  constructor
+  · rw [provnRecord_rel r hk hformals]
+    refine c06_rel_lex _ hkw r.id (fun q hq => (hid q hq).1) (provnFormals r) (by simpa [provnFormals] using hformals) ?_
+      (recPairs r) (fun p hp' => ⟨(hp p hp').1, (hp p hp').2.1⟩) n rest
+    intro w hw
+    rw [← hwords] at hw
+    obtain ⟨x, hx, rfl⟩ := List.mem_map.mp hw
+    exact (hslots x hx).2
+  · cases hsl : recSlots pr r with
+    | nil =>
+      have := congrArg List.length (recSlots_args pr r)
+      rw [hsl] at this
+      simp at this
+      exact absurd (List.length_eq_zero_iff.mp this.symm) hne
+    | cons s slots =>
+      have hargs : (s :: slots).map (·.1) = pr.args := by rw [← hsl]; exact recSlots_args pr r
+      have hw' : (s :: slots).map slotWord = provnFormals r := by rw [← hsl]; exact hwords
+      rw [← hw']
+      exact c06_rel_parse sc std hints r.kind.provN pr hprod hnot r.id
+        (fun q hq => ⟨(hid q hq).2.1, (hid q hq).2.2.1, (hid q hq).2.2.2⟩) s slots hargs
+        (fun x hx => (hslots x (by rw [hsl]; exact hx)).1) (recPairs r) hpa _ (Nat.lt_succ_self _)
+        (fun p hp' => ⟨(hp p hp').2.2.1, (hp p hp').2.2.2⟩) more
+
+/-! ### non-vacuity for relations: `wasGeneratedBy(ex:g; ex:e, ex:a, -, [ex:k=1, ex:k="abc" %% ex:T, prov:label="étiquette"@fr])` -/
+
+def prGen : Prod := ⟨"Generation", [("entity", false), ("activity", true), ("time", true)], true⟩
+
+theorem rcEx_pairs : recPairs C09.rcEx = [(C09.exQ "k", Value.int 1), (C09.exQ "k", .lit "abc" (some (C09.exQ "T")) none),
+    (provQ "label", .lit "étiquette" (some (provQ "InternationalizedString")) (some "fr"))] := by decide +kernel
+
+theorem rcEx_slots : recSlots prGen C09.rcEx = [(("entity", false), some (.qn (C09.exQ "e"))), (("activity", true), some (.qn (C09.exQ "a"))),
+    (("time", true), none)] := by decide +kernel
+
+example (n : Nat) (rest : List Char) (more : List Tok) :=
+  c06_relation C10.scEx scEx_stdN [] C09.rcEx prGen rfl (by decide +kernel) ⟨by decide, by decide⟩
+    (isWord_lit _ (by decide) (by decide) (by decide)) (by decide) (by decide)
+    (fun q hq => by
+      have : q = C09.exQ "g" := by simpa [C09.rcEx] using hq.symm
+      subst this
+      exact ⟨isWord_lit _ (by decide) (by decide) (by decide), by decide +kernel, by decide, rfl⟩)
+    (fun x hx => by
+      rw [rcEx_slots] at hx
+      simp only [List.mem_cons, List.mem_nil_iff, or_false] at hx
+      rcases hx with rfl | rfl | rfl
+      · exact ⟨⟨by decide, by decide +kernel, by decide⟩, isWord_lit _ (by decide) (by decide) (by decide)⟩
+      · exact ⟨⟨by decide, by decide +kernel, by decide⟩, isWord_lit _ (by decide) (by decide) (by decide)⟩
+      · exact ⟨rfl, isWord_lit _ (by decide) (by decide) (by decide)⟩)
+    (Or.inr rfl)
+    (fun p hp => by
+      rw [rcEx_pairs] at hp
+      simp only [List.mem_cons, List.mem_nil_iff, or_false] at hp
+      rcases hp with rfl | rfl | rfl
+      · exact ⟨isWord_lit _ (by decide) (by decide) (by decide), trivial, by decide +kernel, trivial⟩
+      · exact ⟨isWord_lit _ (by decide) (by decide) (by decide), isWord_lit _ (by decide) (by decide) (by decide), by decide +kernel,
+          by decide +kernel, by decide +kernel, by decide +kernel, by decide +kernel, by decide +kernel, by decide +kernel,
+          by decide +kernel, by decide +kernel, by decide +kernel⟩
+      · refine ⟨isWord_lit _ (by decide) (by decide) (by decide), ?_, by decide +kernel, by decide, by decide +kernel⟩
+        show ∀ c ∈ ("fr" : String).toList, (c.isAlphanum || c == '-') = true
+        decide)
+    n rest more
 
 end Prov.C06
